@@ -282,6 +282,22 @@ def execute(p, res):
         else:
             continue
         break
+    # one BIG batch (a prime number of rows cycling through the pool in a fixed irregular order): implementations that work in chunks must treat
+    # the last, shorter chunk like the others
+    BIG = 1031 if p["tier"] == "quick" else 4099
+    sel_big = [(7 * i + i // 3) % len(pool) for i in range(BIG)]
+    try:
+        Yb = call(torch.stack([pool[i] for i in sel_big]))
+        res.ev(BIG, nontrivial=BIG, transitions=0)
+        if Yb.shape[0] != BIG:
+            v(f"B={BIG}", "batch=stack", f"batch of {BIG} members returned leading dimension {tuple(Yb.shape)}")
+        else:
+            badb = [j for j, i in enumerate(sel_big) if not same(Yb[j], ref[i], exact, tol)]
+            if badb:
+                j = badb[0]
+                v(f"B={BIG}", "batch=stack", f"row {j} of a batch of {BIG} (member {sel_big[j]}) -> {Yb[j].reshape(-1).tolist()[:8]} but alone -> {ref[sel_big[j]].reshape(-1).tolist()[:8]} ({len(badb)} rows differ)", {"row": j})
+    except Exception as e:  # noqa: BLE001
+        v(f"B={BIG}", "raises", f"batch of {BIG} members: {type(e).__name__}: {str(e)[:160]}")
     # the same batches presented as non-contiguous views (transposed storage, strided slice of a wider tensor, stride-0 expansion of one member):
     # values are a function of the logical content only
     if not is_2d_member:
